@@ -10,6 +10,7 @@ import (
 	"os"
 	"strconv"
 	"strings"
+	"sync"
 	"time"
 
 	"github.com/spali/go-rscp/rscp"
@@ -359,6 +360,59 @@ func (g *gen) call(i int) *callSpec {
 
 func init() {
 	streams["hist"] = func(g *gen, cw *caseWriter, n int, thorough bool) {
+		// an established, authenticated connection idles longer than the heartbeat interval; then the peer takes a request
+		// and closes without answering; then it is healthy again. (Run side by side: each idles 1.1 s.)
+		{
+			type idleRes struct{ op, impl, prop string }
+			results := make([]idleRes, 3)
+			var wg sync.WaitGroup
+			specs := make([][]*callSpec, 3)
+			for j := range specs {
+				grant := frameReply([]rscp.Message{{Tag: rscp.RSCP_AUTHENTICATION, DataType: rscp.UChar8, Value: uint8(10)}})
+				for k := 0; k < 3; k++ {
+					c := &callSpec{kind: []string{"S", "s"}[g.pick(2)], dialOk: true, writeOk: true, reqs: g.nonceRequest(k)[:1], auth: grant}
+					c.user = frameReply(replyFor(c.reqs, k))
+					if k == 1 {
+						c.user = replySpec{behaviour{kind: []string{"closeBefore", "closeInside"}[j%2], k: 0, items: encItems(replyFor(c.reqs, k))}, "X"}
+					}
+					specs[j] = append(specs[j], c)
+				}
+			}
+			for j := 0; j < 3; j++ {
+				wg.Add(1)
+				go func(j int) {
+					defer wg.Done()
+					s, err := newSession("idleuser", "idlepw", "idlekey", 150*time.Millisecond, 1)
+					if err != nil {
+						return
+					}
+					var ops, res []string
+					prop := "pass"
+					for k, c := range specs[j] {
+						if k == 1 {
+							time.Sleep(1100 * time.Millisecond)
+						}
+						r := s.call(c)
+						ops = append(ops, c.op())
+						res = append(res, r)
+						if n := strings.Count(r, "sent "); n > 2 || (n == 2 && !strings.Contains(r, fmt.Sprintf("[ M %d ", s.authTag))) {
+							prop = "FAIL C08 a request reached the peer more than once in one call (after an idle period): " + trunc(r, 160)
+						}
+						if k == 1 && strings.HasPrefix(r, "ok") {
+							prop = "FAIL C08 a call whose request was never answered returns success: " + trunc(r, 120)
+						}
+					}
+					s.close()
+					results[j] = idleRes{fmt.Sprintf("hist %s %s | %s", hexOf([]byte("idleuser")), hexOf([]byte("idlepw")), strings.Join(ops, " | ")), strings.Join(res, " | "), prop}
+				}(j)
+			}
+			wg.Wait()
+			for _, r := range results {
+				if r.op != "" {
+					cw.add(r.op, r.impl, "N hist idle-then-unanswered", r.prop)
+				}
+			}
+		}
 		for i := 0; i < n; i++ {
 			user, pw := "user"+strconv.Itoa(g.pick(100)), string(g.bytes(1+g.pick(12)))
 			s, err := newSession(user, pw, string(g.bytes(1+g.pick(40))), 120*time.Millisecond, uint16(1+g.pick(3)))
